@@ -253,6 +253,10 @@ func (p *Parser) lookupConverterFunc(funcName string, pos token.Pos) (argType, r
 	}
 
 	argType = sig.Params().At(0).Type()
+	if sig.Variadic() {
+		// f(xs ...T) is called with one value of type T: f(src.X).
+		argType = argType.(*types.Slice).Elem()
+	}
 	retType = sig.Results().At(0).Type()
 	retError = sig.Results().Len() == 2 && util.IsErrorType(sig.Results().At(1).Type())
 	return
